@@ -17,6 +17,7 @@ from tatsu.util.fromjson import JSONBase
 from ..util import alpha_timestamp
 from .packet import (
     BadPacketError,
+    CannotUnPacketError,
     Packet,
     PacketHashError,
     PacketLike,
@@ -130,6 +131,7 @@ class PacketzQueue(JSONBase):
                     packet = unpack(line)
                 except (
                     BadPacketError,
+                    CannotUnPacketError,
                     json.JSONDecodeError,
                     TypeError,
                     PacketHashError,
